@@ -1,4 +1,5 @@
 import NriModel.Lemmas.MuxStream
+import NriModel.Lemmas.MuxSys
 /-!
 Property theorems for C11 — the multiplexer fails stop: no gaps after errors, nothing hangs
 after close.  Model: `NriModel/Mux.lean` (one mux end as a transition system; `step s ev =
@@ -20,6 +21,14 @@ theorem C11_truncated_stream (s : Bytes) (k id : Nat) :
     payloadsOf id (decode (s.take k)).1 <+: payloadsOf id (decode s).1 ∧
     bytesDelivered id (decode (s.take k)).1 <+: bytesDelivered id (decode s).1 :=
   ⟨payloadsOf_prefix (C11_prefix s k), flatten_prefix (payloadsOf_prefix (C11_prefix s k))⟩
+
+/-- The frame-at-a-time reader of the two-ended model used by the correspondence check
+    (`decodeOne`, `MuxSys.lean`) is the `decode` of these theorems. -/
+theorem C11_reader_is_decode (s : Bytes) :
+    decode s = match decodeOne s with
+      | some (f, rest) => (f :: (decode rest).1, (decode rest).2)
+      | none => ([], s) :=
+  decode_eq_decodeOne s
 
 /-- Nothing is damaged or invented: the decoded frames followed by the incomplete tail
     re-encode to exactly the bytes that arrived. -/
